@@ -168,7 +168,7 @@ type c07Alteration struct {
 
 // alterations that are dag-json collisions -> KNOWN_FINDINGS key reported when the altered token still verifies
 var c07CollisionKeys = map[string]string{"nb-bytes-to-slash-map": "json-slash-bytes", "nb-link-to-slash-map": "json-slash-link",
-	"nb-int-to-integral-float": "json-integral-float", "string-invalid-utf8-swap": "json-invalid-utf8", "aud-invalid-utf8-swap": "json-invalid-utf8-did"}
+	"nb-int-to-integral-float": "json-integral-float", "string-invalid-utf8-swap": "json-invalid-utf8", "aud-invalid-utf8-swap": "json-invalid-utf8-did", "aud-undecodable-swap": "undecodable-audience"}
 
 // signPayloadOf rebuilds the signed string exactly the way ucan.VerifySignature does
 func signPayloadOf(u ucan.View) (alg string, payload string, err error) {
@@ -318,6 +318,14 @@ func c07CollisionAlterations() []c07Alteration {
 				}
 				return nil, false
 			})
+		}},
+		{"aud-undecodable-swap", func(m *udm.UCANModel, o *Prin) bool {
+			// a token whose audience bytes are no DID at all (issued to did.Undef) signs "aud":"": any other undecodable bytes print the same
+			if _, err := did.Decode(m.Aud); err == nil {
+				return false
+			}
+			m.Aud = []byte{0x00, 0x01}
+			return true
 		}},
 		{"aud-invalid-utf8-swap", func(m *udm.UCANModel, o *Prin) bool {
 			d, err := did.Decode(m.Aud)
@@ -544,7 +552,9 @@ func init() {
 			iss := issuers[i%len(issuers)]
 			aud := keys[r.Intn(len(keys))]
 			var audP ucan.Principal = aud.DID
-			if i%5 == 3 { // a generic (non-key) audience DID whose text is not valid UTF-8
+			if i%16 == 7 { // the undefined DID as audience (Delegate accepts it)
+				audP = did.Undef
+			} else if i%5 == 3 { // a generic (non-key) audience DID whose text is not valid UTF-8
 				if wd, err := did.Decode(append([]byte{0x9d, 0x1a}, []byte(fmt.Sprintf("web:ex\xffample%d.com", r.Intn(10)))...)); err == nil {
 					audP = wd
 				}
